@@ -26,9 +26,57 @@ func (w *verifC14World) implHas(category string, t, c int, p int) bool {
 	return false
 }
 
-// Operations of DIFFERENT connections (and queries) commute in the model, so whatever the
-// interleaving, the outcome must be the one sequential outcome: peer 0 sends REGISTER or
-// UNREGISTER while peer 1 hangs up, sends PING, or unregisters.
+// does the registry hold exactly the model's keys and registrations? (plain booleans, so that a
+// harness can put ONE assertion with a scenario-specific label on it)
+func (w *verifC14World) registryEqualsModel() bool {
+	m := &w.m
+	ok := true
+	for p := 0; p < verifC14NP; p++ {
+		has := false
+		for _, pr := range w.l.DB.FindProducers("client", "", "") {
+			if w.peers[p].info != nil && pr.peerInfo == w.peers[p].info {
+				has = true
+			}
+		}
+		if has != m.conn[p] {
+			ok = false
+		}
+	}
+	for t := 0; t < verifC14NT; t++ {
+		if w.implTopicKey(t) != m.tkey[t] {
+			ok = false
+		}
+		for p := 0; p < verifC14NP; p++ {
+			if w.implHas("topic", t, -1, p) != (m.conn[p] && m.rt[t][p]) {
+				ok = false
+			}
+		}
+		for c := 0; c < verifC14NC; c++ {
+			if w.implChanKey(t, c) != m.ckey[t][c] {
+				ok = false
+			}
+			for p := 0; p < verifC14NP; p++ {
+				if w.implHas("channel", t, c, p) != (m.conn[p] && m.rc[t][c][p]) {
+					ok = false
+				}
+			}
+		}
+	}
+	return ok
+}
+
+func verifC14Kind(ephemeral bool) string {
+	if ephemeral {
+		return "ephemeral"
+	}
+	return "durable"
+}
+
+// Operations of DIFFERENT connections commute in the model, so whatever the interleaving, the
+// outcome must be the one sequential outcome: peer 0 sends REGISTER t c or UNREGISTER t while
+// peer 1 hangs up, sends PING, UNREGISTER t c or UNREGISTER t. The assertion label names the
+// racing pair and the kind of key peer 1 gives up, e.g.
+//   concurrent-REGISTER-vs-UNREGISTER-of-ephemeral-channel-equals-the-sequential-outcome
 func VerifC14_ConcurrentPeers() {
 	var w *verifC14World
 	var t, c int
@@ -49,22 +97,32 @@ func VerifC14_ConcurrentPeers() {
 			w.register(0, t, c)
 		}
 	})
-	op0 := verifrt.Choice("op0", 2)
-	op1 := verifrt.Choice("op1", 3)
-	c0, c1 := w.peers[0].conn, w.peers[1].conn
-	line0 := "REGISTER " + verifC14Topic(t) + " " + verifC14Chan(c)
-	if op0 == 1 {
-		line0 = "UNREGISTER " + verifC14Topic(t)
+	op0 := 0
+	if verifrt.Bound("concurrentFullProduct", 0, 1) == 1 {
+		op0 = verifrt.Choice("op0", 2)
 	}
+	op1 := verifrt.Choice("op1", 4)
+	c0, c1 := w.peers[0].conn, w.peers[1].conn
+	line0, name0 := "REGISTER "+verifC14Topic(t)+" "+verifC14Chan(c), "REGISTER"
+	if op0 == 1 {
+		line0, name0 = "UNREGISTER "+verifC14Topic(t), "UNREGISTER-of-topic"
+	}
+	name1 := ""
 	// --- concurrent phase ---
 	c0.in <- []byte(line0 + "\n")
 	switch op1 {
 	case 0:
+		name1 = "hangup"
 		close(c1.in)
 	case 1:
+		name1 = "PING"
 		c1.in <- []byte("PING\n")
 	case 2:
+		name1 = "UNREGISTER-of-" + verifC14Kind(c == 1) + "-channel"
 		c1.in <- []byte("UNREGISTER " + verifC14Topic(t) + " " + verifC14Chan(c) + "\n")
+	case 3:
+		name1 = "UNREGISTER-of-" + verifC14Kind(t == 1) + "-topic"
+		c1.in <- []byte("UNREGISTER " + verifC14Topic(t) + "\n")
 	}
 	e0 := <-c0.ev
 	e1 := <-c1.ev
@@ -96,6 +154,13 @@ func VerifC14_ConcurrentPeers() {
 			verifrt.Assert(e1 == verifC14Idle, "concurrent-unregister-answered")
 			c1.takeFrame()
 			m.rc[t][c][1] = false
+		case 3:
+			verifrt.Assert(e1 == verifC14Idle, "concurrent-unregister-answered")
+			c1.takeFrame()
+			m.rt[t][1] = false
+			for cc := 0; cc < verifC14NC; cc++ {
+				m.rc[t][cc][1] = false
+			}
 		}
 		// ephemeral keys that ended up empty: presence is left open unless pinned (see c14.go);
 		// continue from what the implementation chose
@@ -107,7 +172,7 @@ func VerifC14_ConcurrentPeers() {
 				m.ckey[t][cc] = w.implChanKey(t, cc)
 			}
 		}
-		w.checkKeys()
+		verifrt.Assert(w.registryEqualsModel(), "concurrent-"+name0+"-vs-"+name1+"-equals-the-sequential-outcome")
 		verifrt.Reach("concurrent-peers-done", true)
 	})
 }
